@@ -121,6 +121,7 @@ fn main() {
         "foreigngen" => foreign::gen_main(&a),
         "widenlist" => foreign::widen_list(&a),
         "readcmp" => foreign::readcmp_main(&a),
+        "wiremap" => foreign::wiremap_main(&a),
         other => {
             eprintln!("unknown command {other:?}");
             std::process::exit(2);
